@@ -620,6 +620,258 @@ def gen_sized_reply(rng, codes=SEQ_CODES):
     return [rng.choice(codes), lines, lm]
 
 
+# ---- (h) transport drivers: the REAL server side writes, the REAL client side reads, over the in-memory
+# ---- network (simnet, virtual clock) and over real loopback TCP
+LINE_LIMIT = 60000  # single lines stay below the 64 KiB readline limit of asyncio streams (C19's subject)
+
+
+def make_segmenter(spec):
+    """("none") | ("chunk", n) | ("cuts", seed): how the bytes of each server write are split"""
+    if not spec or spec[0] == "none":
+        return None
+    if spec[0] == "chunk":
+        n = spec[1]
+        return lambda data: [data[i : i + n] for i in range(0, len(data), n)]
+    import random
+
+    r = random.Random(spec[1])
+
+    def f(data):
+        if len(data) < 2:
+            return [data]
+        cuts = sorted(r.sample(range(1, len(data)), min(len(data) - 1, r.randint(1, 3))))
+        return [data[a:b] for a, b in zip([0] + cuts, cuts + [len(data)])]
+
+    return f
+
+
+async def pair_session(seq, enc, timeout):
+    """each reply of `seq` through the REAL Server.write_response on the accepted connection's
+    ThrottleStreamIO (as the dispatcher builds it) -> transport -> the stream the REAL BaseClient.connect
+    builds -> len(seq)+1 REAL Client.parse_response calls"""
+    server = aioftp.Server(encoding=enc)
+    state = {"server_raised": None}
+
+    async def handler(reader, writer):
+        stream = aioftp.ThrottleStreamIO(reader, writer, throttles={"_": aioftp.StreamThrottle.from_limits()}, write_timeout=timeout)
+        try:
+            for code, lines, lm in seq:
+                await server.write_response(stream, code, list(lines), lm)
+        except Exception as e:
+            state["server_raised"] = type(e).__name__
+        finally:
+            stream.close()
+
+    srv = await asyncio.start_server(handler, "127.0.0.1", 0)
+    port = srv.sockets[0].getsockname()[1]
+    client = aioftp.Client(encoding=enc, socket_timeout=timeout)
+    outs = []
+    try:
+        await aioftp.BaseClient.connect(client, "127.0.0.1", port)
+        for _ in range(len(seq) + 1):
+            try:
+                code, info = await client.parse_response()
+                outs.append([0, str(code), list(info)])
+            except errors.StatusCodeError as e:
+                outs.append([1, str(e.expected_codes[0]) if e.expected_codes else "", str(e.received_codes[0]) if e.received_codes else ""])
+            except ConnectionResetError:
+                outs.append([2])
+                break
+            except Exception as e:
+                outs.append([3, type(e).__name__])
+                break
+    except Exception as e:
+        outs.append([3, "connect:" + type(e).__name__])
+    finally:
+        client.close()
+        srv.close()
+        await srv.wait_closed()
+    return outs, state["server_raised"]
+
+
+def unknown_verb(n):
+    return fill("XqZv", n)
+
+
+async def server_session(verb_lengths, enc, timeout):
+    """the REAL Server (dispatcher, parse_command, response queue, response_writer, write_response) and the
+    REAL Client (connect, login, command): an unknown verb of each length is answered by 502 echoing it,
+    then SYST must be answered by its own reply.  What the server encodes is recorded at write_response."""
+    server = aioftp.Server(path_io_factory=aioftp.MemoryPathIO, encoding=enc)
+    sent = []
+    real_wr = server.write_response
+
+    async def recording(stream, code, lines="", list=False):
+        ls = [lines] if isinstance(lines, str) else [*lines]
+        sent.append([code, ls, bool(list)])
+        return await real_wr(stream, code, ls, list)
+
+    server.write_response = recording
+    await server.start("127.0.0.1", 0)
+    port = server.server.sockets[0].getsockname()[1]
+    client = aioftp.Client(encoding=enc, socket_timeout=timeout)
+    outs = []
+    try:
+        await client.connect("127.0.0.1", port)
+        await client.login()
+        for n in verb_lengths:
+            for cmd in (unknown_verb(n), "SYST"):
+                n0 = len(sent)
+                try:
+                    code, info = await client.command(cmd, "xxx")  # any code is accepted here; judged below
+                    got = [0, str(code), list(info)]
+                except errors.StatusCodeError as e:
+                    got = [1, str(e.expected_codes[0]) if e.expected_codes else "", str(e.received_codes[0]) if e.received_codes else ""]
+                except ConnectionResetError:
+                    got = [2]
+                except Exception as e:
+                    got = [3, type(e).__name__]
+                outs.append({"command": cmd if len(cmd) < 20 else "unknown verb of %d characters" % n, "got": got, "encoded": [list(x) for x in sent[n0:]]})
+                if got[0] >= 2:
+                    break
+            if outs and outs[-1]["got"][0] >= 2:
+                break
+    except Exception as e:
+        outs.append({"command": "connect/login", "got": [3, type(e).__name__], "encoded": []})
+    finally:
+        client.close()
+        try:
+            await asyncio.wait_for(server.close(), 5)
+        except Exception:
+            pass
+    return outs
+
+
+def judge_session(outs, verb_lengths):
+    """-> None when every command was answered by exactly the reply the server encoded for it"""
+    if len(outs) != 2 * len(verb_lengths):
+        return "the session stopped after %d of %d commands: %s" % (len(outs), 2 * len(verb_lengths), brief(outs[-1:]))
+    for i, o in enumerate(outs):
+        want_code = "502" if i % 2 == 0 else "215"
+        if o["got"][0] != 0 or o["got"][1] != want_code:
+            return "%s answered by %s" % (o["command"], brief(o["got"]))
+        if len(o["encoded"]) == 1:  # what the server handed to write_response for this command
+            c, ls, lm = o["encoded"][0]
+            if o["got"] != [0, c, expected_info(c, ls, lm)]:
+                return "%s: the server encoded %s, the client decoded %s" % (o["command"], brief([c, ls, lm]), brief(o["got"]))
+    return None
+
+
+def run_tcp(coro_fn, wall):
+    """the same coroutine on a real event loop / real loopback sockets"""
+    loop = asyncio.new_event_loop()
+    try:
+        return loop.run_until_complete(asyncio.wait_for(coro_fn(), wall))
+    finally:
+        try:
+            loop.run_until_complete(asyncio.sleep(0.01))
+            for t in asyncio.all_tasks(loop):
+                t.cancel()
+            loop.run_until_complete(asyncio.sleep(0))
+        except Exception:
+            pass
+        loop.close()
+
+
+def session_verbs(thorough):
+    """verb lengths that put the 502 reply's framed size on every value around each primary size bound
+    (whatever the fixed part of the message is, up to 40 characters)"""
+    primary, secondary = size_bounds()
+    out = []
+    for t in primary + (secondary if thorough else []):
+        if t + 8 < LINE_LIMIT:
+            out.append([n for n in range(t - 40, t + 5)] if t == primary[0] or thorough else [n for n in range(t - 30, t - 16)])
+    return out
+
+
+def transport(ctx, sized):
+    from .. import simnet
+
+    rng, thorough = ctx.rng, ctx.tier == "thorough"
+    seqs = [(seq, enc) for seq, enc in sized_sequences(rng, sized, thorough) if all(len(l.encode(enc)) < LINE_LIMIT for r in seq for l in r[1])]
+    for _ in range(60 if thorough else 20):
+        seq = [gen_sized_reply(rng, CODES) if rng.random() < 0.6 else gen_reply(rng, CODES, 0.2) for _ in range(rng.randint(2, 4))]
+        enc = pick_enc(rng, [l for r in seq for l in r[1]])
+        if all(len(l.encode(enc)) < LINE_LIMIT for r in seq for l in r[1]):
+            seqs.append((seq, enc))
+    jobs = []
+    for i, (seq, enc) in enumerate(seqs):
+        segspec = [["none"], ["chunk", 1460], ["cuts", i], ["none"], ["chunk", block_size()], ["chunk", 7]][i % 6]
+        if segspec == ["chunk", 7] and sum(len(l) for r in seq for l in r[1]) > 20000:
+            segspec = ["chunk", 512]
+        jobs.append((seq, enc, segspec))
+
+    def judge(seq, enc, segspec, driver, outs, server_raised):
+        ctx.case(("transport", driver, repr(segspec), enc, tuple((r[0], tuple(r[1]), r[2]) for r in seq)))
+        ctx.traces_impl += 1
+        want = [[0, r[0], expected_info(r[0], r[1], r[2])] for r in seq] + [[2]]
+        if outs != want or server_raised:
+            ctx.violation(
+                "replies written by the server on one connection were not decoded reply by reply by the client",
+                {"key": "c06-transport-sequence", "driver": driver, "replies": [pack_reply(r) for r in seq], "encoding": enc,
+                 "segmenter": segspec, "got": brief(outs), "expected": brief(want), "server_raised": server_raised},
+            )
+
+    async def main(net):
+        res = []
+        for seq, enc, segspec in jobs:
+            net.on_connect = lambda ct, st, _s=segspec: setattr(st.out, "segmenter", make_segmenter(_s))
+            try:
+                res.append(await pair_session(seq, enc, 30))
+            except Exception as e:  # an exception of the (changed) implementation is an observation
+                res.append(([[3, "session:" + type(e).__name__]], None))
+        vres = []
+        for k, lens in enumerate(session_verbs(thorough)):
+            net.on_connect = lambda ct, st, _k=k: setattr(st.out, "segmenter", make_segmenter([["none"], ["chunk", 1460]][_k % 2]))
+            vres.append((lens, await server_session(lens, "utf-8", 30)))
+        return res, vres
+
+    try:
+        res, vres = simnet.run(main, wall_timeout=240 if thorough else 100)
+    except Exception as e:
+        ctx.notes.append(f"transport driver (simnet) aborted: {e!r}")
+        res, vres = [], []
+    for (seq, enc, segspec), (outs, sr) in zip(jobs, res):
+        judge(seq, enc, segspec, "simnet", outs, sr)
+    ctx.count("transport_simnet_sequences", len(res))
+    ctx.count("transport_simnet_replies", sum(len(j[0]) for j in jobs[: len(res)]))
+    for lens, outs in vres:
+        ctx.case(("session", "simnet", tuple(lens)))
+        ctx.traces_impl += 1
+        ctx.count("session_simnet_commands", len(outs))
+        why = judge_session(outs, lens)
+        if why:
+            ctx.violation("real server / real client session: " + why,
+                          {"key": "c06-session-replies", "driver": "simnet", "verb_lengths": lens, "encoding": "utf-8", "why": why})
+
+    # once over the wire: real loopback TCP, real event loop (kernel segmentation)
+    primary, _ = size_bounds()
+    near = [j for j in jobs if any(abs(sum(len(l.encode(j[1])) for l in r[1]) + framing_overhead(len(r[1]), r[2]) - primary[0]) <= 1 for r in j[0])]
+    wire_jobs = (near[:: max(len(near) // 12, 1)] + jobs[-3:]) if not thorough else near + jobs[-20:]
+    n_wire = 0
+    for seq, enc, _ in wire_jobs:
+        try:
+            outs, sr = run_tcp(lambda: pair_session(seq, enc, 5), 20)
+        except Exception as e:
+            outs, sr = [[3, "session:" + type(e).__name__]], None
+        judge(seq, enc, ["kernel"], "tcp", outs, sr)
+        n_wire += 1
+    ctx.count("transport_tcp_sequences", n_wire)
+    b = primary[0]
+    lens = list(range(b - 30, b - 16))
+    try:
+        outs = run_tcp(lambda: server_session(lens, "utf-8", 5), 40)
+    except Exception as e:
+        outs = [{"command": "session", "got": [3, type(e).__name__], "encoded": []}]
+    ctx.case(("session", "tcp", tuple(lens)))
+    ctx.traces_impl += 1
+    ctx.count("session_tcp_commands", len(outs))
+    why = judge_session(outs, lens)
+    if why:
+        ctx.violation("real server / real client session over loopback TCP: " + why,
+                      {"key": "c06-session-replies", "driver": "tcp", "verb_lengths": lens, "encoding": "utf-8", "why": why})
+
+
 def correspondence(ctx, budget=None):
     rng = ctx.rng
     thorough = ctx.tier == "thorough"
@@ -722,7 +974,7 @@ def correspondence(ctx, budget=None):
                 ctx.violation(
                     "reply decoded differently from what was encoded",
                     {"key": "c06-roundtrip", "code": code, "lines": [pack_line(l) for l in lines], "list": lm, "encoding": enc,
-                     "segments": pack_segs(segs), "framed_size": len(wire), "decoded": brief(r), "expected": brief(want), "rest": brief(repr(rest))},
+                     "segments": pack_segs(segs), "emitted_bytes": len(wire), "decoded": brief(r), "expected": brief(want), "rest": brief(repr(rest))},
                 )
         if len(xcheck) < 80 and len(data) < 400:
             xcheck.append((1, [data.decode(enc)], mo))
@@ -1004,6 +1256,10 @@ def correspondence(ctx, budget=None):
                 ctx.violation("command line not parsed back to (verb, arg)", {"key": "c06-parse-command", "verb": verb, "arg": arg, "encoding": enc, "got": repr(val)})
     ctx.count("parse_command_lines", len(pc_cases))
 
+    # ---------------- (h) the same sized sequences over transports: in-memory network and loopback TCP
+    if budget is None:
+        transport(ctx, sized)
+
     ok, out = __import__("harness.core", fromlist=["x"]).vm_crosscheck(EXTRACT, xcheck)
     ctx.extra["vm_compute_crosscheck"] = {"cases": len(xcheck), "agree": ok}
     if not ok:
@@ -1041,7 +1297,7 @@ def replay(ctx, data):
             segs.append(data_b[pos : pos + n])
             pos += n
         got, rest = canon_presult(impl_parse_response(loop, client, segs))
-        print("framed size:", len(wire), "decoded:", brief(got), "rest:", brief(repr(rest)))
+        print("emitted bytes:", len(wire), "decoded:", brief(got), "rest:", brief(repr(rest)))
         return got == [0, r["code"], expected_info(r["code"], r["lines"], r["list"])] and rest == b"226 next\r\n"
     if r.get("key") == "c06-matches":
         try:
@@ -1083,6 +1339,32 @@ def replay(ctx, data):
         want = [[0, it[1], expected_info(it[1], it[2], it[3])] if it[0] == "good" else [1, it[1], it[2]] for it in r["items"]] + [[2]]
         print("wire:", brief(repr(data_b)), "\ngot:     ", brief(got), "rest:", brief(repr(rest)), "\nexpected:", brief(want))
         return got == want and rest == b""
+    if r.get("key") == "c06-transport-sequence":
+        from .. import simnet
+
+        seq = [unpack_reply(x) for x in r["replies"]]
+        if r.get("driver") == "tcp":
+            outs, sr = run_tcp(lambda: pair_session(seq, enc, 5), 20)
+        else:
+            async def main(net):
+                net.on_connect = lambda ct, st: setattr(st.out, "segmenter", make_segmenter(r.get("segmenter")))
+                return await pair_session(seq, enc, 30)
+
+            outs, sr = simnet.run(main, wall_timeout=60)
+        want = [[0, x[0], expected_info(x[0], x[1], x[2])] for x in seq] + [[2]]
+        print("driver:", r.get("driver"), "\ngot:     ", brief(outs), "server raised:", sr, "\nexpected:", brief(want))
+        return outs == want and not sr
+    if r.get("key") == "c06-session-replies":
+        from .. import simnet
+
+        lens = r["verb_lengths"]
+        if r.get("driver") == "tcp":
+            outs = run_tcp(lambda: server_session(lens, enc, 5), 40)
+        else:
+            outs = simnet.run(lambda net: server_session(lens, enc, 30), wall_timeout=60)
+        why = judge_session(outs, lens)
+        print("driver:", r.get("driver"), "commands answered:", len(outs), "of", 2 * len(lens), "\nverdict:", why or "every command answered by the reply the server encoded for it")
+        return why is None
     if r.get("key") == "c06-parse-command":
         kind, val, rest = impl_parse_command(loop, aioftp.Server(encoding=enc), [(r["verb"] + " " + r["arg"] + "\r\n").encode(enc)])
         print("parsed:", kind, val)
